@@ -510,7 +510,15 @@ Definition step (s : cst) (e : ev) : option cst :=
   | BAR_RENDER b cur tot ref ab comp sh =>
       match lookup b (bars s) with
       | Some r => if exited (br_st r) && negb (rendering s) then None else   (* after exit the container goroutine renders the bar itself *)
-                  match bar_render r cur tot ref ab comp sh with Some r' => Some (upd_bar s b r') | None => None end
+                  (* bar.go render: a live bar whose context is done and that is neither completed nor aborted is marked
+                     aborted before it is drawn (the cancellation may not have reached the actor's select yet) *)
+                  let st := br_st r in
+                  let r1 := if ab && negb (aborted st) && negb (completed st) && negb (exited st)
+                               && (cancelled s || BarState.cancelled st)
+                            then set_st r (mkB (total st) (current st) (refill st) (trig st) true (rm st) (nopop st) (auto st)
+                                               (shutdown st) (BarState.cancelled st) (exited st) (early st))
+                            else r in
+                  match bar_render r1 cur tot ref ab comp sh with Some r' => Some (upd_bar s b r') | None => None end
       | None => None
       end
   | BAR_DRAWERR b =>
